@@ -271,6 +271,12 @@ def tensor_method(it, tv, name, args, kwargs, node):
         r = it.fresh(t, shape, kind, node)
         r.obj.valkind = tv.obj.valkind
         r.obj.dtype_src = tv.obj
+        # torch's clone keeps the memory layout of its source (preserve_format): the copy of a tensor whose layout is the caller's
+        # (or of a transposed view) need not be contiguous
+        mf = kwargs.get("memory_format") if isinstance(kwargs, dict) else None
+        if name == "clone" and kind == "tensor" and mf is None and (str(tv.obj.origin).startswith("param:") or getattr(tv.obj, "layout_unknown", False)
+                                                                   or any(st_[0] == "op" and st_[1] in ("t", "transpose", "transpose_s") for st_ in tv.view)):
+            r.obj.layout_unknown = True
         return r
     if name == "numpy":
         r = it.fresh(t, shape, "ndarray", node)
@@ -361,6 +367,20 @@ def tensor_method(it, tv, name, args, kwargs, node):
         if shape is not None and len(shape) == 1 and dims in ([1, -1], [-1, 1]) and (name == "view" or not tv.view or True):
             # a vector reshaped to one row / one column: the same as unsqueeze (one normal form for both spellings)
             return tensor_method(it, tv, "unsqueeze", [VConst(0 if dims == [1, -1] else 1)], {}, node)
+        if name == "reshape" and kind == "tensor" and not tv.view and getattr(tv.obj, "layout_unknown", False) and not (shape is not None and len(dims) == len(shape)):
+            # reshape returns a view when the layout allows it and a copy otherwise: for a tensor that is not known to be
+            # contiguous the result may be either - what is written into it need not reach the tensor
+            new_shape, _desc = _view_shape(shape, dims)
+            r = it.fresh(T.app("view", t, tuple(str(d) for d in dims)) if t is not None else None, new_shape, kind, node)
+            r.obj.valkind = tv.obj.valkind
+            r.obj.dtype_src = tv.obj
+            r.obj.may_alias.add(tv.obj)
+            r.obj.maybe_copy = True
+            r.obj.reshape_of = tv.obj
+            return r
+        if shape is not None and len(dims) == len(shape) and dims.count(-1) == 1 and all(d == -1 or d == s_ for d, s_ in zip(dims, shape)) and all(s_ != UNK for d, s_ in zip(dims, shape) if d != -1):
+            # every size but the inferred one is the size the tensor already has: the same tensor (x.view(-1, n) of an (B, n) tensor)
+            return VTens(tv.obj, tv.view, shape)
         new_shape, desc = _view_shape(shape, dims)
         step = ("op", desc[0]) + tuple(desc[1:])
         return VTens(tv.obj, tv.view + (step,), new_shape)
@@ -455,6 +475,15 @@ def tensor_method(it, tv, name, args, kwargs, node):
         return r
 
     # ---------------- elementwise unary
+    if base == "abs" and not args and t is not None and T.has_imag_unit(t) and getattr(tv.obj, "native_complex", False):
+        # the modulus of a native complex tensor re + i im
+        re_, im_ = T.complex_split(t)
+        return it.fresh(T.sqrt(re_ * re_ + im_ * im_), shape, kind, node)
+    if base in ("conj", "conj_physical") and not args and t is not None and getattr(tv.obj, "native_complex", False):
+        re_, im_ = T.complex_split(t)
+        r = it.fresh(re_ - T.sym("lit:1j") * im_, shape, kind, node)
+        r.obj.native_complex = True
+        return r
     if base in ELEMENTWISE and not args and base != "conj":
         fn = ELEMENTWISE[base]
         if base in ("log", "log1p") and t is not None:
@@ -499,7 +528,11 @@ def tensor_method(it, tv, name, args, kwargs, node):
 
     # ---------------- elementwise binary
     if base in BINARY and args:
-        r = tensor_binop(it, BINARY[base], tv, args[0], node)
+        other = args[0]
+        al = kwargs.get("alpha") if isinstance(kwargs, dict) else None
+        if al is not None and base in ("add", "sub", "subtract") and not (isinstance(al, VConst) and al.value == 1):
+            other = tensor_binop(it, "Mult", other, al, node)  # x.add(y, alpha=a) is x + a * y
+        r = tensor_binop(it, BINARY[base], tv, other, node)
         if inplace:
             it.write(tv, r.term, node, name, src=args[0] if isinstance(args[0], VTens) else None)
             return tv
